@@ -17,6 +17,13 @@
 (*   SplitBetween(c) Block.splitBetween + re-merge if still violated       *)
 (*   NoMore          mostViolated() returns nothing violated               *)
 (*   EndSat          return of satisfy() and the loop test of solve()      *)
+(*   Retarget(d)     Solver.setDesiredPositions(d) followed by the entry   *)
+(*                   of the next solve(): the block structure (active and  *)
+(*                   flagged constraints) is KEPT, block positions are     *)
+(*                   recomputed from the new desired positions (they are   *)
+(*                   derived here, Blocks.split refreshes them in the      *)
+(*                   code).  Not part of Next: a single solve() never      *)
+(*                   retargets; VpscResolve.tla composes it.               *)
 (*                                                                         *)
 (* Constants that model a code-level decision:                             *)
 (*   StopRule    "no-change"       stop when a satisfy() leaves the        *)
@@ -235,6 +242,12 @@ Next == \/ /\ pc \in {"split", "merge"}
                  \/ \E c \in CSet : Merge(c, d) \/ MarkUnsat(c, d) \/ SplitBetween(c, d)
                  \/ NoMore(d)
         \/ EndSat
+
+Retarget(d) ==
+  /\ pc = "done"
+  /\ des' = d /\ pc' = "split" /\ prev' = <<>> /\ nsat' = 0 /\ didsplit' = FALSE
+  /\ cost' = <<-1, 1>> /\ lastcost' = <<-1, 1>>
+  /\ UNCHANGED <<nv, wt, sc, cons, active, unsat>>
 
 Control0 == /\ active = {} /\ unsat = {} /\ pc = "split" /\ prev = <<>>
             /\ cost = <<-1, 1>> /\ lastcost = <<-1, 1>> /\ nsat = 0 /\ didsplit = FALSE
